@@ -250,6 +250,17 @@ def cache_oracle(default, ops):
                 store.pop(key, None)
             else:
                 store[key] = (op[5], 1, t + ttl)
+        elif k == "A":
+            soas, auth = op[6], op[7]
+            if soas:
+                ttl = min(soas[0])           # RFC 2308: bounded by the SOA's MINIMUM field and by its own TTL
+            else:
+                st = [x[1] for x in auth if x[0]]
+                ttl = st[0] if st else default
+            if ttl == 0:
+                store.pop(key, None)
+            else:
+                store[key] = (op[5], 1, t + ttl)
         elif k == "G":
             e = store.get(key)
             if e and t < e[2]:
@@ -270,6 +281,10 @@ def cache_case(default, ops):
             parts.append("%d:C" % t)
         elif k == "P":
             parts.append("%d:P:%s:%d:%d:%d:%s" % (t, hx(op[2]), op[3], op[4], op[5], ",".join(map(str, op[6])) if op[6] else "-"))
+        elif k == "A":
+            parts.append("%d:A:%s:%d:%d:%d:%s:%s" % (t, hx(op[2]), op[3], op[4], op[5],
+                                                     ",".join("%d/%d" % x for x in op[6]) or "-",
+                                                     ",".join("%s%d" % ("S" if a else "O", b) for a, b in op[7]) or "-"))
         elif k == "N":
             parts.append("%d:N:%s:%d:%d:%d:%d" % (t, hx(op[2]), op[3], op[4], op[5], op[6]))
         else:
@@ -303,6 +318,17 @@ def gen_cache_history(rng):
             ttl = rng.choice([0, 1, 2, 5])
             ops.append((t, "N", n, ty, cl, val, ttl))
             live.append(t + ttl)
+            val += 1
+        elif r < 0.52:
+            # negative answer whose TTL comes from the response: SOA TTL below / equal / above MINIMUM, several SOAs,
+            # SOA only in the raw authority section, no SOA at all
+            soas = [(rng.choice([0, 1, 2, 3, 5, 60]), rng.choice([0, 1, 2, 3, 5, 60])) for _ in range(rng.choice([0, 1, 1, 1, 2]))]
+            auth = [(rng.random() < 0.5, rng.choice([1, 2, 4, 7])) for _ in range(rng.choice([0, 0, 1, 2]))]
+            ops.append((t, "A", n, ty, cl, val, soas, auth))
+            ttl = min(soas[0]) if soas else ([x[1] for x in auth if x[0]] + [default])[0]
+            live.append(t + ttl)
+            if soas:
+                live.append(t + max(soas[0]))
             val += 1
         elif r < 0.85:
             ops.append((t, "G", n, ty, cl))
